@@ -1199,6 +1199,23 @@ impl<'r> G<'r> {
         let mut params = Vec::new();
         let mut names: Vec<String> = Vec::new();
         let mut ports = Vec::new();
+        if kind != "program" && self.r.chance(1, 12) {
+            // A.1.2: module_keyword [lifetime] module_identifier ( .* ) ; {module_item} endmodule [: id]
+            self.fact(if kind == "module" { "ModuleDeclarationWildcard" } else { "InterfaceDeclarationWildcard" }, &name);
+            self.sym("(");
+            self.sym(".*");
+            self.sym(")");
+            self.sym(";");
+            // the body is made of module_items, which admit port declarations (A.1.4)
+            self.module_items(&mut names, &mut params, kind, true);
+            self.kw(endkw);
+            if self.r.chance(2, 3) {
+                self.sym(":");
+                self.id(&name);
+            }
+            self.mods.push(ModInfo { name, ports, params, is_interface: kind == "interface" });
+            return;
+        }
         let has_params = self.r.chance(1, 2);
         if has_params {
             self.param_port_list(&mut params);
@@ -1373,6 +1390,10 @@ impl<'r> G<'r> {
                     self.sym(")");
                     self.sym(";");
                     self.kw("endfunction");
+                    if self.r.chance(1, 2) {
+                        self.sym(":");
+                        self.kw("new");
+                    }
                 }
             }
         }
